@@ -740,6 +740,12 @@ def rule_label_declass(S, res):
                 return False
             if any(n.endswith("from_residual") for n in names):
                 return False   # `?`: only the error part of the value travels on the early-return path
+            # `opt.map(|label| label ^ (b & delta))`: what comes out is what the closure returns; the receiver reaches
+            # the result only through the closure (closarg / closret edges)
+            if e.kind == "call" and names[-1].rsplit("::", 1)[-1] in ("map", "and_then", "map_or", "map_or_else", "filter_map", "then", "flat_map") and info.get("arg") == 0:
+                t_ = fg.bodies[e.body].blocks[e.block]["t"] if e.block is not None and e.body in fg.bodies else None
+                if t_ is not None and any("{closure:" in (a["p"]["ty"] if a["k"] != "const" else a.get("ty", "")) for a in t_.get("args", [])):
+                    return False
             for n in names:
                 if "BitXor<mpc::data_types::Delta>" in n and "data_types::Label" in n:
                     n_sel[0] += 1
